@@ -364,10 +364,13 @@ def check_property(prop, tier, seed):
 def replay(prop, path):
     with open(path) as f:
         rec = json.load(f)
-    if rec.get('arm', 'monitor') != 'monitor':
+    # value-monitor and fuzz witnesses carry (check, a, b, c) and are re-judged by the monitor in every configuration
+    wit = next((w for w in rec.get('witnesses', []) if 'check' in w and 'a' in w), None)
+    if wit is None:
         import arms as A
         return A.replay(prop, rec)
-    wit = rec['witnesses'][0]
+    wit.setdefault('b', 0)
+    wit.setdefault('c', 0)
     tier = rec.get('tier', 'quick')
     cfgs = configs_for(prop, tier)
     res = run_monitor(prop, tier, rec.get('seed', 1), cfgs, ['--replay', wit['check'], str(wit['a']), str(wit['b']), str(wit['c'])])
